@@ -32,6 +32,9 @@ CLS = ["K0", "K1", "K2"]          # K1 is a subclass of K0
 SET_A = ["a", "b", "c", "K0", "K1"]
 SET_B = ["d", "e", "K2"]
 DEFAULT = "default"
+# dispatch values that are VECTORS of tags (isa? is element-wise on vectors of equal length); every use builds a fresh,
+# equal-but-not-identical vector, as a dispatch fn like (fn [a b] [(type a) (:kind b)]) would
+VECS = ["a|b", "b|c", "K1|a", "d|e", "c|c"]
 _st = {}
 _fns = {}
 
@@ -46,14 +49,17 @@ def lane_setup():
     import basilisp.lang.multifn as mf_mod
     import basilisp.lang.atom as atom_mod
     from basilisp.lang import keyword as kw, symbol as sym, runtime as rt
-    _st.update(MF=mf_mod.MultiFunction, Atom=atom_mod.Atom, kw=kw, sym=sym, rt=rt)
+    from basilisp.lang import vector as vec
+    _st.update(MF=mf_mod.MultiFunction, Atom=atom_mod.Atom, kw=kw, sym=sym, rt=rt, vec=vec)
     for n in ("isa?", "derive", "underive", "parents", "ancestors", "descendants", "make-hierarchy",
               "swap!", "remove-method", "remove-all-methods", "prefer-method", "get-method", "methods",
               "prefers", "deref"):
         _fns[n] = common.core_fn(n)
     trace.register(mf_mod.MultiFunction, [".py"], opcode=True)
     trace.register(atom_mod.Atom, [".py"])
-    trace.register_lisp_ns(common.core_ns(), ["isa?", "derive", "underive", "ancestors", "swap!"], "core.lpy")
+    trace.register(rt.Var, [".py"])          # only frames whose Var carries a sim lock are traced (global-hierarchy mode)
+    trace.register_lisp_ns(common.core_ns(), ["isa?", "derive", "underive", "ancestors", "swap!", "alter-var-root"],
+                           "core.lpy")
 
 
 # ------------------------------------------------------------------ generation
@@ -72,10 +78,11 @@ def _gen_op(rng, universe, allow_all, allow_default):
     if r < 0.58 and len(universe) > 1:
         x, y = rng.sample(universe, 2)
         return ["prefer", x, y]
+    tags = [u for u in universe if "|" not in u]
     if r < 0.85 and kws:
-        return ["derive", rng.choice(universe), rng.choice(kws)]
+        return ["derive", rng.choice(tags), rng.choice(kws)]
     if kws:
-        return ["underive", rng.choice(universe), rng.choice(kws)]
+        return ["underive", rng.choice(tags), rng.choice(kws)]
     return ["add", rng.choice(universe)]
 
 
@@ -96,12 +103,16 @@ def gen(rng, tier, index):
             "virtual": rng.random() < 0.4}
     universe = KWS + CLS
     if rng.random() < 0.3:
+        vectors = rng.random() < 0.3
+        if vectors:
+            universe = universe + VECS
+            base = dict(base, vectors=True)
         n = rng.choice([3, 5, 7, 7, 12, 25, 40]) if tier == "thorough" else rng.choice([3, 5, 7, 7, 12, 20])
         ops = [_gen_op(rng, universe, True, True) for _ in range(n)]
         if rng.random() < 0.3:
             # scenario bias: a chain v -> y -> x with methods on x and y, an answer for v cached,
             # then a table change that must invalidate it (preference, new/removed method, edge)
-            v, y, x = rng.sample(universe, 3)
+            v, y, x = rng.sample(KWS + CLS, 3)
             if x in CLS or y in CLS:
                 v, y, x = (rng.sample(CLS, 1) + rng.sample(KWS, 2)) if rng.random() < 0.5 else rng.sample(KWS, 3)
             chain = [["derive", v, y], ["derive", y, x], ["add", x], ["add", y]]
@@ -176,6 +187,9 @@ def gen(rng, tier, index):
     wl = dict(base, mode="conc", pre=pre, mutators=muts, callers=callers)
     if rng.random() < 0.15:
         wl["throw_dispatch"] = rng.choice([1, 2, 3])
+    # a fifth of these runs work on the PROCESS-WIDE hierarchy (2-arity derive/underive from the mutators, a
+    # multimethod without :hierarchy); its Var gets a sim lock for the run and is restored afterwards
+    wl["use_global"] = rng.random() < 0.2
     return wl
 
 
@@ -325,6 +339,9 @@ def _bases(t):
 def m_isa(m, x, y):
     if x == y:
         return True
+    if "|" in x or "|" in y:
+        xs, ys = x.split("|"), y.split("|")
+        return "|" in x and "|" in y and len(xs) == len(ys) and all(m_isa(m, a, b) for a, b in zip(xs, ys))
     anc = m.closure(x)
     if _is_cls(x):
         anc = anc | _supers(x)
@@ -377,11 +394,15 @@ class World:
         self.obj[DEFAULT] = kw.keyword("fallback", ns="v") if workload.get("custom_default") else kw.keyword("default")
         self.rev = {id(v): n for n, v in self.obj.items()}
         self.rev[id(object)] = "object"
+        self.vectors = bool(workload.get("vectors"))
         self.use_global = bool(workload.get("use_global"))
         if self.use_global:
             # the process-wide hierarchy Var; only used by single-task (sequential) runs, restored by close()
             self.hier = _st["rt"].Var.find_safe(_st["sym"].symbol("global-hierarchy", ns="basilisp.core"))
             self.saved_global = self.hier.deref()
+            self.saved_lock = self.hier._lock
+            if workload["mode"] == "conc":
+                self.hier._lock = P.SimRLock()
         else:
             self.hier = _st["Atom"](_fns["make-hierarchy"]())
         self.ncalls = 0
@@ -389,6 +410,11 @@ class World:
         self.throw_at = workload.get("throw_dispatch")
         self.faults = {}
         self.mf = self.new_mf()
+
+    def val(self, name):
+        if "|" in name:
+            return _st["vec"].v(*[self.obj[p] for p in name.split("|")])
+        return self.obj[name]
 
     def dispatch(self, v):
         self.ncalls += 1
@@ -404,6 +430,7 @@ class World:
 
     def close(self):
         if self.use_global:
+            self.hier._lock = self.saved_lock
             self.hier.bind_root(self.saved_global)
 
     def method_for(self, key):
@@ -418,13 +445,13 @@ class World:
         try:
             t = op[0]
             if t == "add":
-                mf.add_method(o[op[1]], self.method_for(op[1]))
+                mf.add_method(self.val(op[1]), self.method_for(op[1]))
             elif t == "remove":
-                _fns["remove-method"](mf, o[op[1]])
+                _fns["remove-method"](mf, self.val(op[1]))
             elif t == "remove_all":
                 _fns["remove-all-methods"](mf)
             elif t == "prefer":
-                _fns["prefer-method"](mf, o[op[1]], o[op[2]])
+                _fns["prefer-method"](mf, self.val(op[1]), self.val(op[2]))
             elif t == "derive" and self.use_global:
                 _fns["derive"](o[op[1]], o[op[2]])
             elif t == "underive" and self.use_global:
@@ -442,7 +469,7 @@ class World:
     def call(self, v, mf=None):
         mf = mf or self.mf
         try:
-            return mf(self.obj[v])
+            return mf(self.val(v))
         except P._k.SimAbort:
             raise
         except Exception as e:  # noqa: BLE001
@@ -499,7 +526,7 @@ def _check_dispatch(w, m, where):
     """O1 (+O1b order independence) and O2 for every dispatch value."""
     fresh = w.fresh_from()
     fresh_rev = w.fresh_from(reverse=True)
-    for v in KWS + CLS + ["zz", DEFAULT]:
+    for v in KWS + CLS + ["zz", DEFAULT] + (VECS if w.vectors else []):
         got = w.call(v)
         f1 = w.call(v, fresh)
         if got != f1:
@@ -631,7 +658,14 @@ def _run_conc(workload, k):
         k.spawn(mut(i, ops), name=f"M{i}")
     for i, ops in enumerate(workload["callers"]):
         k.spawn(caller(i, ops), name=f"C{i}")
-    k.run()
+    try:
+        k.run()
+        return _judge_conc(workload, k, w, nm, versions, calls, out, pre_bad)
+    finally:
+        w.close()
+
+
+def _judge_conc(workload, k, w, nm, versions, calls, out, pre_bad):
     kv = R.kernel_failure_verdict(ID, k)
     if kv is not None:
         kv["faults"] = w.faults
